@@ -466,6 +466,50 @@ func TestCheck(t *testing.T) {
 				}
 			}
 			c.SetExhaustive("dm_all_chars_after_each_mode", true)
+
+			// every tail of <= 4 (thorough: 5) characters over one representative per character class,
+			// after the same prefixes and after short X12 / EDIFACT openings: end-of-data handling of
+			// every encodation at every group alignment and symbol fill
+			alpha := []rune{'1', 'A', 'a', ' ', '\r', '>', '*', '`', 0xD0}
+			pfx2 := append(append([]string(nil), prefixes...), "AB>", "AB>C", "AB>CD", "A.B-", "A.B-C")
+			maxL := c.N(4, 5)
+			var n int64
+			stop := false
+			for _, pfx := range pfx2 {
+				for L := 1; L <= maxL && !stop && dm != nil; L++ {
+					ix := make([]int, L)
+					for !stop {
+						idx++
+						if c.Mine(idx) {
+							rs := make([]rune, L)
+							for i, k := range ix {
+								rs[i] = alpha[k]
+							}
+							cs := Case{Writer: dm.name, Content: []byte(pfx + string(rs)), Format: int(dm.format)}
+							raw, _ := json.Marshal(cs)
+							hx.JournalCase("encode_total", raw)
+							if err := hx.Safe(func() error { return check(raw) }); err != nil {
+								stop = !c.Enum("dm_tails_exhaustive", "encode_total", cs, nil)
+							}
+							n++
+						}
+						i := L - 1
+						for i >= 0 {
+							ix[i]++
+							if ix[i] < len(alpha) {
+								break
+							}
+							ix[i] = 0
+							i--
+						}
+						if i < 0 {
+							break
+						}
+					}
+				}
+			}
+			c.NoteBulk("dm_tails_exhaustive", "", n, n, func() any { return Case{Writer: "DM", Content: []byte("AB>*\r1")} })
+			c.SetExhaustive("dm_tails_exhaustive", true)
 		}
 		for wi := range writers {
 			we := writers[wi]
